@@ -52,17 +52,16 @@ fn data_fp<const M: usize>(cones: &[SupportedConeT<F>], st: &DefaultSettings<F>)
     DefaultProblemData::<F>::new(&P, &q, &A, &b, cones, st)
 }
 
-fn exact_fp<const M: usize>(cones_t: &[SupportedConeT<F>], sweeps: u32, nonscalar: std::ops::Range<usize>) {
+fn exact_fp<const M: usize>(cones_t: &[SupportedConeT<F>], cones: &CompositeCone<F>, sweeps: u32, nonscalar: std::ops::Range<usize>) {
     let mut st = settings_t::<F>();
     st.presolve_enable = false;
     st.equilibrate_max_iter = sweeps;
     // any bounds: the identity must hold whatever the clipping does
-    st.equilibrate_min_scaling = F::any();
-    st.equilibrate_max_scaling = F::any();
+    st.equilibrate_min_scaling = F::any_nonzero(); // (positive over the reals; zero would zero out a factor)
+    st.equilibrate_max_scaling = F::any_nonzero();
     let mut data = data_fp::<M>(cones_t, &st);
     let (P0, A0, q0, b0) = (data.P.clone(), data.A.clone(), data.q.clone(), data.b.clone());
-    let cones = cc::new_without_type_counts(cones_t);
-    data.equilibrate(&cones, &st);
+    data.equilibrate(cones, &st);
     let eq = &data.equilibration;
     let (d, e, c) = (&eq.d, &eq.e, eq.c);
     // the factors applied are the factors recorded
@@ -102,13 +101,14 @@ fn exact_fp<const M: usize>(cones_t: &[SupportedConeT<F>], sweeps: u32, nonscala
 }
 
 macro_rules! exact_harness {
-    ($name:ident, $m:expr, $cones:expr, $sweeps:expr, $rng:expr, $unwind:expr) => {
+    ($name:ident, $m:expr, [$($c:expr),*], $sweeps:expr, $rng:expr, $unwind:expr) => {
         #[kani::proof]
         #[kani::unwind($unwind)]
         #[kani::stub(std::collections::hash_map::RandomState::new, stub_random_state)]
         pub fn $name() {
             use SupportedConeT::*;
-            exact_fp::<$m>(&$cones, $sweeps, $rng);
+            crate::stack_composite!(cones, F, [$($c),*]);
+            exact_fp::<$m>(&[$($c),*], &cones, $sweeps, $rng);
         }
     };
 }
@@ -134,7 +134,7 @@ pub fn c10_disabled() {
     st.presolve_enable = false;
     st.equilibrate_enable = false;
     let mut data = DefaultProblemData::<f64>::new(&P, &q, &A, &b, &cones_t, &st);
-    let cones = cc::new_without_type_counts(&cones_t);
+    crate::stack_composite!(cones, f64, [SupportedConeT::<f64>::NonnegativeConeT(2)]);
     data.equilibrate(&cones, &st);
     let mut k = 0;
     while k < 3 {
@@ -170,7 +170,7 @@ pub fn c10_zero_rows_cols() {
     st.presolve_enable = false;
     st.equilibrate_max_iter = 2;
     let mut data = DefaultProblemData::<f64>::new(&P, &q, &A, &b, &cones_t, &st);
-    let cones = cc::new_without_type_counts(&cones_t);
+    crate::stack_composite!(cones, f64, [SupportedConeT::<f64>::NonnegativeConeT(2)]);
     data.equilibrate(&cones, &st);
     assert!(data.equilibration.d[1] == 1.0 && data.equilibration.dinv[1] == 1.0, "zero_column_left_unscaled");
     assert!(data.equilibration.e[1] == 1.0 && data.equilibration.einv[1] == 1.0, "zero_row_left_unscaled");
@@ -239,7 +239,7 @@ fn bounds_pow2(sweeps: u32) {
     st.equilibrate_max_iter = sweeps;
     let (lo, hi) = (st.equilibrate_min_scaling, st.equilibrate_max_scaling);
     let mut data = DefaultProblemData::<f64>::new(&P, &[q], &A, &[b], &cones_t, &st);
-    let cones = cc::new_without_type_counts(&cones_t);
+    crate::stack_composite!(cones, f64, [SupportedConeT::<f64>::NonnegativeConeT(1)]);
     data.equilibrate(&cones, &st);
     let eq = &data.equilibration;
     let slack = 1.0 + 8.0 * f64::EPSILON;
